@@ -900,6 +900,29 @@ def install() -> None:
     disk_utils.shutil = SIM_SHUTIL
     for m in (storage_backend, integrity, data_operations):
         m.open = sim_open
+    # listing anomaly hook (F9): a fault {"kind": "value", "op": "list_result", "cls": <class of the prefix>}
+    # makes the backend's list_files() return an extra, untrusted entry at a chosen position
+    def _wrap_list(klass):
+        orig = klass.list_files
+
+        def list_files(self, prefix):
+            res = orig(self, prefix)
+            sim = cur_sim()
+            if sim is None or sim.me() is None:
+                return res
+            cls = classify_rel(prefix.strip("/"))
+
+            def vf(d):
+                out = list(res)
+                pos = d.get("pos", "end")
+                i = 0 if pos == "start" else (len(out) // 2 if pos == "mid" else len(out))
+                out.insert(i, d.get("entry", "../../outside/file"))
+                return out
+            return sim.seam("list_result", cls, prefix.strip("/"), lambda: res, value_fault=vf, noyield=True)
+        klass.list_files = list_files
+    _wrap_list(storage_backend.LocalStorageBackend)
+    _wrap_list(storage_backend.S3StorageBackend)
+
     file_lock.fcntl = SIM_FCNTL
     _orig_init = file_lock.FileLock.__init__
 
